@@ -863,6 +863,9 @@ class World:
                 return "swallowed"
 
         async def script():
+            return await script_with(hm)
+
+        async def script_with(hm):
             for _ in range(spec.get("pre", 0)):
                 await self.op("yield", hm, anyio.lowlevel.checkpoint)
             act = spec.get("act", "started")
@@ -904,6 +907,13 @@ class World:
                     await self.op("forever", gm, anyio.sleep_forever)
             return ("done", v)
 
+        if spec.get("shield_script"):
+            # the child ignores cancellation until its script is over (e.g. it must finish a hand-over)
+            async def shielded_script():
+                with CancelScope(shield=True) as sc:
+                    nonlocal_hm = Mirror(sc, hm, "shielded-script", asyncio.current_task(), "cleanup")
+                    return await script_with(nonlocal_hm)
+            return await cleanup_aware(shielded_script)
         return await cleanup_aware(script)
 
 
@@ -960,6 +970,12 @@ def run_program(case):
         for rec in w.pending_c02:
             w.check_group_exit_c02(*rec)
         for ci in w.children.values():
+            if getattr(ci, "second_started", None) == "refused" and ci.start_site is not None \
+                    and ci.start_site["outcome"] is not None and ci.start_site["outcome"][0] == "raised" \
+                    and isinstance(ci.start_site["outcome"][1], asyncio.CancelledError):
+                w.bad("c07:second-started-refused-after-caller-cancelled", "",
+                      f"child {ci.name}: the caller of start() had been cancelled before the first started(); the "
+                      f"second started() call raised RuntimeError")
             if getattr(ci, "second_started", None) == "accepted" and ci.start_site is not None \
                     and ci.start_site["outcome"] is not None and ci.start_site["outcome"][0] == "returned":
                 w.bad("c07:second-started-accepted", "", f"child {ci.name}: start() had returned, yet a second "
